@@ -276,7 +276,7 @@ def pmap(fn, items, rep, workers=None, chunksize=1):
             guarded(fn, it, rep)
         return
     ctx = multiprocessing.get_context("fork")
-    stall = float(os.environ.get("VERIF_STALL_S", "3600"))
+    stall = float(os.environ.get("VERIF_STALL_S") or (3600 if CURRENT_TIER[0] == "quick" else 5 * 3600))
     with ctx.Pool(min(workers, len(items)), initializer=_pool_init) as pool:
         it = pool.imap_unordered(_worker_entry, [(fn, it) for it in items], chunksize)
         while True:
